@@ -825,6 +825,19 @@ spec fn case_recorded(ts: Seq<TypeNode>, e: Expression, vs: Seq<TypeVariable>) -
         _ => true,
     }
 }
+/// the field names written in a blob instance
+spec fn given_name(fields: Seq<(String, Expression)>, name: String) -> bool {
+    exists|k: int| 0 <= k < fields.len() && (#[trigger] fields[k]).0 == name
+}
+/// a blob instance that is accepted names exactly the fields of the blob it instantiates
+/// (the type of the blob's variable as it is known before the expression is checked)
+spec fn blob_instance_ok(ts0: Seq<TypeNode>, vs: Seq<TypeVariable>, e: Expression) -> bool {
+    match e {
+        Expression::Blob { blob, fields, .. } => ty_of(ts0, vs[blob as int].ty) is Blob ==>
+            forall|name: String| #[trigger] ty_of(ts0, vs[blob as int].ty)->Blob_2@.dom().contains(name) <==> given_name(fields@, name),
+        _ => true,
+    }
+}
 /// the type constructor of a literal
 spec fn lit_head(e: Expression) -> Option<int> {
     match e {
@@ -949,7 +962,6 @@ proof fn lemma_e_str_intro(vs: Seq<TypeVariable>, e: Expression, l: bool, p: boo
 }
 
 /// ids collected per `if` branch are nodes of the graph
-spec fn errs_empty(e: Seq<Error>) -> bool { e.len() == 0 }
 spec fn ids_below(xs: Seq<TyID>, n: int) -> bool { forall|k: int| 0 <= k < xs.len() ==> (#[trigger] xs[k]).0 < n }
 spec fn tys_valid(tys: Seq<(&Span, Option<TyID>, Option<TyID>)>, n: int) -> bool {
     forall|k: int| 0 <= k < tys.len() ==> ((#[trigger] tys[k]).1 is Some ==> (tys[k].1->Some_0.0 as int) < n) && (tys[k].2 is Some ==> (tys[k].2->Some_0.0 as int) < n)
@@ -1180,6 +1192,7 @@ impl TypeChecker {
             final(self).types@.len() == old(self).types@.len() + 1, //# C02,C07 push_type.spec.aux3
             push_frame(old(self).types@, final(self).types@, ty), //# C02 push_type.appends_one_singleton_class_and_touches_nothing_else
             ty_of(final(self).types@, r) == ty, //# C02,C03 push_type.the_new_id_has_the_given_type
+            heads_kept(final(self).types@, final(self).types@), //# - push_type.spec.seed_term_of_the_known_types_chain
             merges_from(old(self).types@, final(self).types@), //# C02 push_type.classes_only_merge
             cons_from(old(self).types@, final(self).types@), //# C02 push_type.no_constraint_dropped
             heads_from(old(self).types@, final(self).types@), //# C02,C03 push_type.known_types_keep_their_shape
@@ -1746,6 +1759,8 @@ impl TypeChecker {
 //@   spec
         requires old(self).inv2(), old(self).valid(ty),
         ensures final(self).inv2(), final(self).grows(old(self)), final(self).valid(r),
+            // assumed: an instance of a type has the shape of the type (constructor, tuple length, field / variant names)
+            shape_eq(ty_of(old(self).types@, ty), ty_of(final(self).types@, r)),
 //@   endspec
 //@ end
 
@@ -1831,6 +1846,7 @@ impl TypeChecker {
             r is Ok && lit_head(*expression) is Some ==> head(ty_of(final(self).types@, r->Ok_0.1)) == lit_head(*expression)->Some_0, //# C03 expression.a_literal_has_the_type_of_its_kind
             lit_clash(*expression) ==> r is Err, //# C03,C05 expression.construct_on_literals_of_a_type_it_does_not_accept_is_rejected
             r is Ok ==> case_recorded(final(self).types@, *expression, old(self).variables@), //# C05 expression.case_requires_an_enum_with_every_arm_and_exactly_the_arms_without_else
+            r is Ok ==> blob_instance_ok(old(self).types@, old(self).variables@, *expression), //# C05 expression.an_accepted_blob_instance_names_exactly_the_fields_of_the_blob
 //@   endspec
 //@   ghost entry
         hide(wf_forest); hide(ids_closed); hide(TypeChecker::vars_valid);
@@ -1898,7 +1914,8 @@ impl TypeChecker {
                 let ghost sl = self.types@; proof { lemma_cons_refl(sl); }
 //@   endghost
 //@   ghost before-loop 5
-                let ghost n5 = self.types@.len();
+                let ghost n5 = self.types@.len(); let ghost t5 = self.types@; proof { lemma_heads_refl(t5); }
+                #[verifier::loop_isolation(false)]
 //@   endghost
 //@   loop 5 binder it
                     invariant
@@ -1908,29 +1925,24 @@ impl TypeChecker {
                         forall|k: int| 0 <= k < fields@.len() ==> *(#[trigger] it.seq()[k]) == fields@[k], //# - expression.loop5.aux4
                         fields_in_range(given_fields, self.types@.len() as int), //# C07 expression.loop5.aux5
                         forall|k: int| 0 <= k < it.index@ ==> given_fields@.dom().contains((#[trigger] fields@[k]).0), //# C07 expression.loop5.every_given_field_gets_a_type
+                        forall|name: String| #[trigger] given_fields@.dom().contains(name) ==> given_name(fields@, name), //# C05 expression.loop5.only_given_fields_get_a_type
+                        heads_kept(t5, self.types@), //# C05 expression.loop5.aux6
 //@   endloop
-//@   loop 6 binder it
+//@   ghost before-loop 6
+                #[verifier::loop_isolation(false)]
+//@   endghost
+//@   loop 6
                     invariant vstd::std_specs::btree::key_obeys_cmp_spec::<String>(), //# C07 expression.loop6.aux1
-                        forall|j: int| 0 <= j < it.seq().len() ==> blob_fields@.dom().contains(*(#[trigger] it.seq()[j]).0), //# - expression.loop6.aux2
-                        errs_empty(errors@) ==> forall|j: int| 0 <= j < it.index@ ==> given_fields@.dom().contains(*(#[trigger] it.seq()[j]).0), //# C05 expression.loop6.a_field_of_the_blob_that_is_not_given_is_an_error
 //@   endloop
-//@   ghost after-loop 6
-                assert(errs_empty(errors@) ==> forall|k: String| blob_fields@.dom().contains(k) ==> given_fields@.dom().contains(k)); //# C05 expression.every_field_of_the_blob_is_given_or_an_error_is_collected
+//@   ghost before-loop 7
+                #[verifier::loop_isolation(false)]
 //@   endghost
-//@   loop 7 binder it
+//@   loop 7
                     invariant vstd::std_specs::btree::key_obeys_cmp_spec::<String>(), //# C07 expression.loop7.aux1
-                        forall|j: int| 0 <= j < it.seq().len() ==> given_fields@.dom().contains(*(#[trigger] it.seq()[j]).0), //# - expression.loop7.aux2
-                        errs_empty(errors@) ==> forall|k: String| blob_fields@.dom().contains(k) ==> given_fields@.dom().contains(k), //# C05 expression.loop7.aux3
-                        errs_empty(errors@) ==> forall|j: int| 0 <= j < it.index@ ==> blob_fields@.dom().contains(*(#[trigger] it.seq()[j]).0), //# C05 expression.loop7.a_given_field_the_blob_does_not_have_is_an_error
 //@   endloop
-//@   ghost after
-//@| if !errors.is_empty() {
-//@| return Err(errors);
-//@| }
-                assert(given_fields@.dom() =~= blob_fields@.dom()); //# C05 expression.an_accepted_blob_instance_gives_exactly_the_fields_of_the_blob
-//@   endghost
 //@   ghost before-loop 8
-                let ghost n8 = self.types@.len();
+                let ghost n8 = self.types@.len(); let ghost t8 = self.types@; proof { lemma_heads_refl(t8); }
+                #[verifier::loop_isolation(false)]
 //@   endghost
 //@   loop 8 binder it
                     invariant
@@ -1943,6 +1955,7 @@ impl TypeChecker {
                         fields_in_range(fields_and_types, n8 as int), //# C07 expression.loop8.aux7
                         forall|k: int| 0 <= k < fields@.len() ==> fields_and_types@.dom().contains((#[trigger] fields@[k]).0), //# C07 expression.loop8.aux8
                         forall|k: int| 0 <= k < it.index@ ==> e_both(vs, (#[trigger] fields@[k]).1, il, ip), //# C04,C05 expression.loop8.fields_checked
+                        heads_kept(t8, self.types@), //# C05 expression.loop8.aux9
 //@   endloop
 //@   loop 9 binder it
                     invariant
@@ -2372,6 +2385,9 @@ impl TypeChecker {
             r is Ok ==> rep0(final(self).types@, a.0 as int) == rep0(final(self).types@, b.0 as int)
                 || old(seen)@.contains((TyID(rep0(old(self).types@, a.0 as int) as usize), TyID(rep0(old(self).types@, b.0 as int) as usize))), //# C02,C03 sub_unify.ok_means_one_class_or_already_pending
             r is Ok ==> rep0(final(self).types@, r->Ok_0.0 as int) == rep0(final(self).types@, a.0 as int), //# C02 sub_unify.returns_a_member_of_the_class
+            r is Ok && !(ty_of(old(self).types@, a) is Unknown) && !(ty_of(old(self).types@, b) is Unknown)
+                && !old(seen)@.contains((TyID(rep0(old(self).types@, a.0 as int) as usize), TyID(rep0(old(self).types@, b.0 as int) as usize)))
+                ==> shape_eq(ty_of(old(self).types@, a), ty_of(old(self).types@, b)), //# C03,C05 sub_unify.two_known_types_that_unify_have_one_shape
 //@   endspec
 //@   ghost entry
         let ghost ts0 = self.types@; let ghost a0 = a; let ghost b0 = b;
@@ -2488,6 +2504,8 @@ impl TypeChecker {
                 && rep0(old(self).types@, a.0 as int) != rep0(old(self).types@, b.0 as int) ==> r is Err, //# C03,C04,C05 unify.clashing_types_rejected
             r is Ok ==> rep0(final(self).types@, a.0 as int) == rep0(final(self).types@, b.0 as int), //# C02,C03 unify.ok_means_the_two_ids_are_one_class
             r is Ok ==> rep0(final(self).types@, r->Ok_0.0 as int) == rep0(final(self).types@, a.0 as int), //# C02 unify.returns_a_member_of_the_class
+            r is Ok && !(ty_of(old(self).types@, a) is Unknown) && !(ty_of(old(self).types@, b) is Unknown)
+                ==> shape_eq(ty_of(old(self).types@, a), ty_of(old(self).types@, b)), //# C03,C05 unify.two_known_types_that_unify_have_one_shape
 //@   endspec
 //@   ghost entry
         proof { axiom_tyid_pair_key_order(); }
